@@ -112,6 +112,8 @@ PREREQUISITES = {
         ("C03", "'keeps the sender's frame number': the message that goes on the air is the one that was queued, unchanged",
          either(sel("C03.R3", key=("with their own frame number",)), sel("C03.R6"), sel("C03.R2", key=("everything queued stays as it was",)))),
         ("C05", "'uses the header version negotiated by the recipient'", sel("C05.R5", key=("SETFORMAT", "header version", "hdr_ver"))),
+        ("C17", "'version 0 followed by the two legacy padding octets': the datagrams of the message codec, legacy-padded ones "
+                "included, have the documented form for both burst lengths", sel("C17.R4")),
     ],
     "C12": [
         ("C03", "'POWEROFF also forgets all queued bursts' under every interleaving with the clock thread",
@@ -124,7 +126,7 @@ PREREQUISITES = {
     ],
     "C14": [
         ("C05", "'malformed control commands are answered with an error status or ignored, and the transceiver goes on serving'",
-         sel("C05.R1", "C05.R3", "C05.R7")),
+         sel("C05.R1", "C05.R3", "C05.R5", "C05.R7")),
         ("C15", "'or are found in a capture file'", sel("C15.R1", "C15.R2")),
         ("C04", "trxcon's TRXD receive path: length / range checks before use", sel("C04.R2", "C04.R3")),
         ("C03", "a datagram that is not taken must not be queued", sel("C03.R2")),
